@@ -311,21 +311,13 @@ func evalQuery(w *world, rep *vevid.Report, c Case, m *model, q Query, metric st
 	return true
 }
 
-var knownDeviation = map[string]bool{"write-buffer-end-shrinks": true, "empty-meta-flush-stops-persistence": true, "multi-function-same-field": true, "place-partial-aggregate": true,
-	"first-last-bucket-order": true, "first-last-slot-merge-order": true, "memdb-miss-hides-files": true}
+var knownDeviation = map[string]bool{"place-partial-aggregate": true, "first-last-bucket-order": true}
 
 // classify names the clause of a disagreement on one select item: a known deviation if the "as built" model
 // (altmodel.go) reproduces EVERY point of the item that lindb returned (and every missing one), else result-differs.
 func classify(q Query, sel Sel, item string, exp map[string]*expPoint, alt map[string]vset, got map[string]float64) string {
-	seen := map[string]int{}
-	for _, s := range q.Sels {
-		seen[s.F]++
-	}
-	if seen[sel.F] > 1 {
-		// several functions of one field in one select list: the field aggregator feeds every primitive value
-		// into every aggregate of the field (a single point is already wrong)
-		return "multi-function-same-field"
-	}
+	// (multi-function-same-field, memdb-miss-hides-files and first-last-slot-merge-order are repaired in the tree:
+	// what is left of them is result-differs)
 	clauses := map[string]bool{}
 	for k, e := range exp {
 		if strings.Split(k, "|")[1] != item {
@@ -336,8 +328,6 @@ func classify(q Query, sel Sel, item string, exp map[string]*expPoint, alt map[s
 		switch {
 		case ok && e.cands.has(g):
 			continue
-		case !ok && !aok:
-			clauses["memdb-miss-hides-files"] = true
 		case !ok || !aok || !a.has(g):
 			return "result-differs"
 		default:
@@ -345,10 +335,8 @@ func classify(q Query, sel Sel, item string, exp map[string]*expPoint, alt map[s
 			switch {
 			case agg != "last" && agg != "first":
 				clauses["place-partial-aggregate"] = true
-			case e.maxSeriesSlots > 1:
-				clauses["first-last-bucket-order"] = true
 			default:
-				clauses["first-last-slot-merge-order"] = true
+				clauses["first-last-bucket-order"] = true
 			}
 		}
 	}
@@ -359,7 +347,7 @@ func classify(q Query, sel Sel, item string, exp map[string]*expPoint, alt map[s
 			}
 		}
 	}
-	for _, c := range []string{"memdb-miss-hides-files", "place-partial-aggregate", "first-last-slot-merge-order", "first-last-bucket-order"} {
+	for _, c := range []string{"place-partial-aggregate", "first-last-bucket-order"} {
 		if clauses[c] {
 			return c
 		}
